@@ -326,12 +326,24 @@ def _check_leaf_predicates(ctx, sim) -> None:
         if isinstance(n, ast.Continue):
             pass
     fn = sim.methods["_validate_preparations_at_beginning"]
-    txt = norm(fn.node)
-    ok = "isinstance(instruction, Preparation)" in txt and "not isinstance(previous_instruction, Preparation)" in txt or \
-        ("Preparation" in txt and "any(" in txt)
-    ctx.obligation("C13a", f"{fn.qualname}|tests-order", ok)
-    if not ok:
-        raise AnalysisError("C13a: _validate_preparations_at_beginning has a shape the checker cannot read (undecided)")
+    # closed-world rule: the property refuses a preparation after *any other kind* of instruction, so the condition that
+    # arms the refusal must be the complement of isinstance(., Preparation); testing other classes positively (Gate, ...)
+    # lets the kinds that are not enumerated (measurements, channels, batch instructions) slip through
+    tested = []
+    for n in ast.walk(fn.node):
+        if isinstance(n, ast.Call) and dotted(n.func) == "isinstance" and len(n.args) == 2:
+            t = n.args[1]
+            tested.extend(norm(e) for e in (t.elts if isinstance(t, ast.Tuple) else [t]))
+    others = sorted({t for t in tested if t != "Preparation"})
+    key = f"{fn.qualname}|refusal armed by the complement of Preparation"
+    if "Preparation" not in tested:
+        raise AnalysisError("C13a: _validate_preparations_at_beginning does not test isinstance(., Preparation) (shape unreadable, undecided)")
+    ctx.obligation("C13a", key, not others, tested=sorted(set(tested)))
+    if others:
+        ctx.violation("C13a", key, fn.file, fn.line,
+                      f"the preparations-first rule is armed by positive tests on {others}: an instruction that is neither a Preparation "
+                      f"nor one of those classes (e.g. a mid-circuit Measurement) can precede a Preparation without being refused",
+                      "not isinstance(previous_instruction, Preparation)")
     fn = sim.methods["_validate_measurements_at_end"]
     txt = norm(fn.node)
     need = ["isinstance(instruction, Measurement)", "len(instructions) - 1", "_measurement_classes_allowed_mid_circuit"]
